@@ -13,7 +13,7 @@ def coverage(ctx, results, st, rule, extra=None):
     cov = dict(states=mc["distinct"], transitions=mc["states"], traces_validated_against_impl=st["runs"],
                samples=[dict(id=r[0]["id"], scenario=r[0]["meta"]["sc"], observed=r[1], violated_predicates=r[2]["viol"]) for r in (results[0], results[-1])],
                evaluations=st["runs"], distinct_nontrivial=len({json_key(r[0]["meta"]["sc"]) for r in results}),
-               model_drift_runs=st["drift"], trace_rejected_runs=st["stuck"], rule=rule)
+               model_drift_runs=st["drift"], model_drift_by_fault_and_kinds=st.get("drift_by", {}), trace_rejected_runs=st["stuck"], rule=rule)
     cov.update(extra or {})
     return cov
 
